@@ -36,14 +36,16 @@ CONFIGS = [
     ("textB", ["Sa", "Ea", "Tx", "Ty", "Ttab", "T9", "T7f", "T80", "T7ff", "T800", "Tfffd", "T10000", "T10ffff", "Traw", "Tgtraw", "Tquot"], ["Sa"], (4, 1), (5, 1)),
     ("textC", ["Sa", "Ea", "Tx", "Tund", "Tent", "Text", "Tbad", "Tsur", "T0", "T110000", "Tbig", "TX", "Tempty", "Tcdend", "D2", "D3"], ["Sa", "D2", "D3"], (4, 1), (4, 2)),
     ("misc", ["Sa", "Ea", "Ma", "C1", "C0", "C2", "C3", "K1", "K0", "K2", "K3", "P1", "P0", "P2", "P3", "Tx", "Tsp"], None, (3, 1), (4, 1)),
+    # terminator look-alikes directly before the real terminator (runs of "]" of either parity, "?" before "?>")
+    ("terms", ["Sa", "Ea", "C2", "C4", "C5", "C6", "C7", "C8", "P4", "P5", "Tx"], None, (3, 1), (4, 1)),
     ("prolog", ["X1", "X2", "D1", "D2", "D3", "D4", "D5", "D6", "Sa", "Ea", "Tent", "Text", "Tsp", "K1", "P1"], None, (3, 1), (4, 1)),
     ("broken", ["Sa", "Ea", "Tx", "Sa1"] + U, None, (2, 2), (3, 3)),
     ("space", ["Sa", "Ea", "Sb", "Eb", "Tsp", "Tnl", "Tx", "Ttab"], None, (4, 1), (6, 1)),
 ]
 TREE_ALPHABET = ["Sa", "Sb", "Sn", "Sl", "Ea", "Eb", "En", "El", "Ma", "Mb", "SaW", "EaW", "MaW", "Sa1", "Sa2", "Sa3", "Sa4", "Sa5",
                  "Ma1", "Mb2", "SaNl", "Tx", "Ty", "Tsp", "Tnl", "Tlt", "Tgt", "Tamp", "Tq", "Tap", "TA", "Thx", "TE", "Temo", "T9",
-                 "T7ff", "T800", "T10000", "Traw", "Tgtraw", "Tquot", "C1", "C0", "C2", "C3", "K1", "K0", "K2", "K3", "P1", "P0",
-                 "P2", "P3", "X1", "X2", "D1", "D2", "D4", "Tent", "Tund"]
+                 "T7ff", "T800", "T10000", "Traw", "Tgtraw", "Tquot", "C1", "C0", "C2", "C3", "C4", "C5", "C7", "K1", "K0", "K2", "K3", "P1", "P0",
+                 "P2", "P3", "P5", "X1", "X2", "D1", "D2", "D4", "Tent", "Tund"]
 PLAIN = {"Sa", "Sb", "Ea", "Eb", "Ma", "Mb", "Tx", "Ty"}
 FIELDS = ("cls", "xptoks", "xdtoks", "domcls", "dmax", "amax", "nameHi", "nameLo", "textHi", "textLo", "cntHi", "cntLo", "feat")
 
